@@ -1,0 +1,84 @@
+//go:build verif
+
+// Verification hooks (package udpip) for properties C11 and C17. Additive only; compiled only
+// with -tags verif. Read-only views of unexported provider / internal-link state, and the
+// registration of the real newProvider under an additional underlay name so that the provider
+// factory call sites of AddExternalInterface / AddNextHop (reached only for a provider that is
+// not yet instantiated) can be exercised.
+
+package udpip
+
+import (
+	"github.com/scionproto/scion/router"
+)
+
+// VerifCfgRegisterAlias registers the real udpip provider factory under name. Every provider it
+// creates gets opener installed before it is handed to the router (the factory arguments are
+// passed through positionally, untouched).
+func VerifCfgRegisterAlias(name string, opener ConnOpener) {
+	router.AddUnderlay(name, func(a, b, c int) router.UnderlayProvider {
+		p := newProvider(a, b, c)
+		if opener != nil {
+			p.SetConnOpener(opener)
+		}
+		return p
+	})
+}
+
+// VerifCfgProviderState is a copy of the provider fields the two properties talk about.
+type VerifCfgProviderState struct {
+	BatchSize         int
+	ReceiveBufferSize int
+	SendBufferSize    int
+	DispatchStart     uint16
+	DispatchEnd       uint16
+	DispatchRedirect  uint16
+	HasInternal       bool
+	NumConnections    int
+}
+
+// VerifCfgProvider returns the state of a udpip provider (ok=false for any other implementation).
+func VerifCfgProvider(p router.UnderlayProvider) (VerifCfgProviderState, bool) {
+	u, ok := p.(*provider)
+	if !ok {
+		return VerifCfgProviderState{}, false
+	}
+	u.mu.Lock()
+	defer u.mu.Unlock()
+	return VerifCfgProviderState{
+		BatchSize:         u.batchSize,
+		ReceiveBufferSize: u.receiveBufferSize,
+		SendBufferSize:    u.sendBufferSize,
+		DispatchStart:     u.dispatchStart,
+		DispatchEnd:       u.dispatchEnd,
+		DispatchRedirect:  u.dispatchRedirect,
+		HasInternal:       u.internalConnection != nil,
+		NumConnections:    len(u.allConnections),
+	}, true
+}
+
+// VerifCfgInternalRange returns the dispatch range and redirect port the internal link currently
+// applies in Resolve (ok=false if l is not a udpip internal link).
+func VerifCfgInternalRange(l router.Link) (start, end, redirect uint16, ok bool) {
+	il, isInt := l.(*internalLink)
+	if !isInt {
+		return 0, 0, 0, false
+	}
+	return il.dispatchStart, il.dispatchEnd, il.dispatchRedirect, true
+}
+
+// VerifCfgLinkKind names the concrete link implementation.
+func VerifCfgLinkKind(l router.Link) string {
+	switch l.(type) {
+	case *internalLink:
+		return "internal"
+	case *connectedLink:
+		return "connected"
+	case *detachedLink:
+		return "detached"
+	case nil:
+		return "nil"
+	default:
+		return "other"
+	}
+}
